@@ -28,7 +28,7 @@ var mvn *oracle.Server
 
 func TestMain(m *testing.M) {
 	kf, _ = known.Load(ev.KnownFile())
-	rec.Rule("generated Maven universes (2-12 artifacts, 1-5 versions each, soft versions and hard ranges, dependencyManagement on the root, exclusions incl. wildcards, test/provided/runtime scopes, optional flags, classifiers and types incl. war/ear/rar, diamonds, cycles, missing artifacts; single registry) and every root (a sample of roots for large universes); oracle (a) on range-free universes: an independent breadth-first reference model written from the statement (nearest declaration wins, root management overrides transitive versions, exclusions accumulate along the creating path, test/optional/provided only from the root, war/ear/rar not traversed) - exact graph equality under the harness isomorphism labeller; oracle (b) on all universes: predicates - one version per artifact key, every range edge points inside its range (Maven's VersionRange), no edge to an artifact excluded along the node's creating path, no transitive test/optional/provided edge, war/ear/rar-only nodes have no out-edges, every transitive edge to an artifact the root manages carries the managed version, and the selected version being a candidate of the documented preference between soft versions and ranges (a listed soft version inside every range, or the highest listed version inside every range), tolerant of requirements made by versions no longer in the graph; oracle (c) on universes whose traversal cannot change (single-version carrier artifacts, multi-version leaf artifacts required by soft versions and ranges): a model of the documented order of preference (requirements in the order met, kept across re-resolutions; first soft version inside every range; the first range stands for the highest listed version inside every range; node error when nothing matches; Resolve error for a range without listed version or a chosen soft version that does not exist) - exact equality of every edge and node error on the multi-version artifacts. One evaluation = one (universe, root). Non-trivial: a version conflict, a range, an exclusion that removes something, or a management override applied; for (c) an artifact required by both a soft version and a range, or a requirement that ends in a node error. Distinct = distinct (universe, root).")
+	rec.Rule("generated Maven universes (2-12 artifacts, 1-5 versions each, soft versions and hard ranges, dependencyManagement on the root, exclusions incl. wildcards, test/provided/runtime scopes, optional flags, classifiers and types incl. war/ear/rar, diamonds, cycles, missing artifacts; single registry) and every root (a sample of roots for large universes); oracle (a) on range-free universes: an independent breadth-first reference model written from the statement (nearest declaration wins, root management overrides transitive versions, exclusions accumulate along the creating path, test/optional/provided only from the root, war/ear/rar not traversed) - exact graph equality under the harness isomorphism labeller; oracle (b) on all universes: predicates - one version per artifact key, every range edge points inside its range (Maven's VersionRange), no edge to an artifact excluded along the node's creating path, no transitive test/optional/provided edge, war/ear/rar-only nodes have no out-edges, every transitive edge to an artifact the root manages carries the managed version, and the selected version being a candidate of the documented preference between soft versions and ranges (a listed soft version inside every range, or the highest listed version inside every range), tolerant of requirements made by versions no longer in the graph; oracle (c) on universes whose traversal cannot change (single-version carrier artifacts, multi-version leaf artifacts required by soft versions and ranges): a model of the documented order of preference (requirements in the order met, kept across re-resolutions; first soft version inside every range; the first range stands for the highest listed version inside every range; node error when nothing matches; Resolve error for a range without listed version or a chosen soft version that does not exist) - exact equality of every edge and node error on the multi-version artifacts. One evaluation = one (universe, root). Non-trivial: a version conflict, a range, an exclusion that removes something, or a management override applied; for (c) an artifact required by both a soft version and a range, or a requirement that ends in a node error. Distinct = distinct (universe, root). One resolver serves the sampled roots of a universe (earlier roots are part of the case); a fifth of the universes with ranges carry a typed conflict (war/ear/rar/test-jar/classifier declared by a soft version and, elsewhere, by a range that excludes it).")
 	var err error
 	if mvn, err = oracle.Start("mvn"); err == nil {
 		rec.Extra("oracle_mvn", mvn.Version)
